@@ -130,6 +130,31 @@ theorem C01_erode_bool_eq_spec (A : Img Int) (sup : List (List Int × Int)) (p :
     1 (by simp [dtBool])
   simpa [dtBool] using key
 
+/-- **C01-T1 (the inner loop as written, whole array).** `erodeAtExit` is the inner loop of `erode<T>` with its
+early exit (`if (value == min) break;`); `erodeModel` — the array the driver prints and the harness
+compares with the real generic kernel — applies it at every pixel in scan order. For every integer dtype
+and bool, every image of every rank and shape with positive axis lengths and every admissible element
+(empty included: the `if (!N2)` branch fills the dtype maximum) the early exit never changes the value,
+and the whole output array is the lattice definition at every pixel. -/
+theorem C01_erode_model_eq_spec (dt : DT) (hdt : dt.WF ∨ dt = dtBool) (A : Img Int)
+    (sup : List (List Int × Int)) (hs : ∀ d ∈ A.shape, 0 < d) (hA : ImageInRange dt A)
+    (hB : AdmissibleElem dt sup) :
+    (∀ p, erodeAtExit dt A sup p = erodeAt dt A sup p) ∧
+    erodeModel dt A sup = ((allPos A.shape).map (erodeSpecAt dt A sup)).toArray := by
+  have hexit : ∀ p, erodeAtExit dt A sup p = erodeAt dt A sup p := fun p =>
+    erodeAtExit_eq dt hdt A sup p hs hA (fun kh hkh => ⟨(hB kh hkh).1, (hB kh hkh).2.1⟩)
+  refine ⟨hexit, ?_⟩
+  unfold erodeModel
+  congr 1
+  apply List.map_congr_left
+  intro p _
+  rw [hexit p]
+  rcases hdt with wf | rfl
+  · exact C01_erode_eq_spec dt wf A sup p hs hA hB
+  · apply C01_erode_bool_eq_spec A sup p hs
+    · intro q; have := hA q; simp only [DT.InRange, dtBool] at this; omega
+    · intro kh hkh; exact (hB kh hkh).2.2 rfl
+
 /-- **F10 restated as part of C01**: the kernel's saturating subtraction is `max lo (a − h)`,
     its saturating addition `min hi (a + h)`, for every dtype and all in-range operands. -/
 theorem C01_saturating_arith (dt : DT) (wf : dt.WF) (a b : Int) (ha : dt.InRange a)
@@ -243,6 +268,24 @@ theorem C01_dilate_regular_everywhere (dt : DT) (hdt : DTypeOK dt) (A : Img Int)
     obtain ⟨kh', hkh', hm', hh, hk'⟩ := star_exchange dt bshape sup hbox hstar hflat kh hkh hm _ hbt
     exact ⟨kh', hkh', hm', hh, by rw [hk']; exact hg⟩
 
+/-- **C01-T3b/T4 in the form the check uses.** The driver marks pixel `q` as *observed* when
+`starShaped … && flatHeights … || boxInterior …` evaluates to true on the members of the support it built;
+at every observed pixel the model of the generic `dilate` kernel equals the lattice definition. (The
+harness compares the real output with `dilateSpecAt` exactly at these pixels, with the scatter model
+everywhere.) -/
+theorem C01_dilate_eq_spec_where_observed (dt : DT) (hdt : DTypeOK dt) (A : Img Int) (bshape : List Nat)
+    (sup : List (List Int × Int)) (q : List Int)
+    (hs : ∀ d ∈ A.shape, 0 < d) (hl : bshape.length = A.shape.length) (hbox : OffsetsInBox bshape sup)
+    (hA : ImageInRange dt A) (hB : AdmissibleElem dt sup) (hq : inside A.shape q = true)
+    (hobs : (starShaped bshape ((sup.filter (isMember dt)).map (·.1)) &&
+             flatHeights ((sup.filter (isMember dt)).map (·.2)) ||
+             boxInterior A.shape bshape q) = true) :
+    (dilateModel dt A sup).getD (ravelI A.shape q) dt.lo = dilateSpecAt dt A sup q := by
+  rw [Bool.or_eq_true, Bool.and_eq_true] at hobs
+  rcases hobs with ⟨hstar, hflat⟩ | hb
+  · exact C01_dilate_regular_everywhere dt hdt A bshape sup q hs hl hbox hA hB hstar hflat hq
+  · exact C01_dilate_eq_spec_boxInterior dt hdt A bshape sup q hs hl hbox hA hB hq hb
+
 /-- **C01-T2 (2-D boolean fast path, erosion).** For every 2-D boolean image (any shape `Ny × Nx`),
 every 2-D structuring element given as an array of `By·Bx` entries (odd or even sized, empty, larger
 than the image, with or without its centre) and every pixel `(y, x)` of the image, the pointwise model
@@ -313,20 +356,72 @@ theorem C01_fast_erode_loops_eq_pointwise (A : Img Int) (Ny Nx : Nat) (bshape : 
   rw [h2]
   exact (C01_fast_erode_eq_spec ⟨[Ny, Nx], data⟩ Ny Nx By Bx bc y x rfl hA hbc hp).1
 
-/-- **C01-T5 (2-D boolean fast path, dilation = generic kernel).** For every non-empty 2-D boolean
-image and every 2-D structuring element (odd or even sized, empty, larger than the image, regular or not)
+/-- **C01-T5 (2-D boolean fast path, dilation = generic kernel).** For every 2-D boolean
+image (empty ones included) and every 2-D structuring element (odd or even sized, empty, larger than the image, regular or not)
 the model of the dilation branch of `fast_binary_dilate_erode_2d` (as repaired: scatter with clamp, the
 centre handled by the initial copy) produces the same array as the model of the generic `dilate` kernel
 with the compressed support — at every pixel, border included. Together with T3b/T4 the fast path
 therefore equals the lattice definition wherever the generic kernel does. -/
 theorem C01_fast_dilate_eq_generic (A : Img Int) (Ny Nx By Bx : Nat) (bc : Array Int)
-    (hshape : A.shape = [Ny, Nx]) (hNy : 0 < Ny) (hNx : 0 < Nx) (hdata : A.data.size = A.size)
+    (hshape : A.shape = [Ny, Nx]) (hdata : A.data.size = A.size)
     (hA : ∀ q, A.getD q 0 = 0 ∨ A.getD q 0 = 1) (hbc : bc.size = By * Bx) :
     fastDilate A [By, Bx] bc = dilateModel dtBool A (support [By, Bx] bc true) := by
   obtain ⟨shape, data⟩ := A
   simp only at hshape
   subst hshape
-  exact fastDilate_eq Ny Nx data By Bx bc hNy hNx hdata hA hbc
+  by_cases h : 0 < Ny ∧ 0 < Nx
+  · exact fastDilate_eq Ny Nx data By Bx bc h.1 h.2 hdata hA hbc
+  · apply fastDilate_eq_empty Ny Nx data [By, Bx] bc _ hdata
+    simp only [shapeSize, Nat.mul_one]
+    rcases Nat.eq_zero_or_pos Ny with h1 | h1
+    · simp [h1]
+    · rcases Nat.eq_zero_or_pos Nx with h2 | h2
+      · simp [h2]
+      · exact absurd ⟨h1, h2⟩ h
+
+/-- **C01-T4/T5 (both code paths equal the lattice definition).** For every 2-D boolean image and 0/1
+element, the fast dilation branch equals the gather definition at every box-interior pixel, and at every
+pixel when the element is star-shaped (cross, box, disk) — the same observables, with the same answer, as
+the generic kernel. -/
+theorem C01_fast_dilate_eq_spec (A : Img Int) (Ny Nx By Bx : Nat) (bc : Array Int) (q : List Int)
+    (hshape : A.shape = [Ny, Nx]) (hdata : A.data.size = A.size)
+    (hA : ∀ q, A.getD q 0 = 0 ∨ A.getD q 0 = 1) (hbc : bc.size = By * Bx)
+    (hbc01 : ∀ i, bc.getD i 0 = 0 ∨ bc.getD i 0 = 1)
+    (hq : inside A.shape q = true)
+    (hobs : boxInterior A.shape [By, Bx] q = true ∨
+      starShaped [By, Bx] ((support [By, Bx] bc true).map (·.1)) = true) :
+    (fastDilate A [By, Bx] bc).getD (ravelI A.shape q) 0 =
+      dilateSpecAt dtBool A (support [By, Bx] bc true) q := by
+  rw [C01_fast_dilate_eq_generic A Ny Nx By Bx bc hshape hdata hA hbc]
+  have hs : ∀ d ∈ A.shape, 0 < d := by
+    rw [hshape] at hq ⊢
+    obtain ⟨y, x, _, hy, hx⟩ := inside2 Ny Nx q hq
+    intro d hd
+    have : d = Ny ∨ d = Nx := by simpa using hd
+    rcases this with rfl | rfl <;> omega
+  have hl : [By, Bx].length = A.shape.length := by rw [hshape]; rfl
+  have hIR : ImageInRange dtBool A := by
+    intro p; rcases hA p with h | h <;> simp [DT.InRange, dtBool, h]
+  have hones : ∀ kh ∈ support [By, Bx] bc true, kh.2 = 1 := by
+    intro kh hkh
+    obtain ⟨i, _, hne, rfl⟩ := (mem_support2 By Bx bc kh).mp hkh
+    rcases hbc01 i with h | h
+    · exact absurd h hne
+    · exact h
+  have hB : AdmissibleElem dtBool (support [By, Bx] bc true) := by
+    intro kh hkh
+    rw [hones kh hkh]
+    exact ⟨⟨by decide, by decide⟩, Or.inl (by decide), fun _ => rfl⟩
+  have hbox := (C01_support_offsets_in_box [By, Bx] bc true).1
+  rcases hobs with hb | hstar
+  · exact C01_dilate_eq_spec_boxInterior dtBool (Or.inr rfl) A [By, Bx] _ q hs hl hbox hIR hB hq hb
+  · apply C01_dilate_regular_everywhere dtBool (Or.inr rfl) A [By, Bx] _ q hs hl hbox hIR hB _ _ hq
+    · rw [support_filter_bool]; exact hstar
+    · rw [support_filter_bool]
+      apply flatHeights_of_const _ 1
+      intro x hx
+      obtain ⟨kh, hkh, rfl⟩ := List.mem_map.mp hx
+      exact hones kh hkh
 
 /-- **C01-T6 (structuring-element tables).** In every dimension `d`:
 `crossElem d r` (what `get_structuring_elem` builds for `None`/an integer, `r` the translated radius) has
@@ -472,13 +567,14 @@ theorem C01_fast_dilate_loops_eq_pointwise (A : Img Int) (Ny Nx : Nat) (bshape :
   exact fastDilateLoops_eq Ny Nx data bshape bc hdata (data01_of_img [Ny, Nx] data hdata hA)
 
 /-! non-vacuity: a 2×3 int8 image with negative values and a non-flat, even-sized element
-    meets every hypothesis of `C01_erode_eq_spec`. -/
+    meets every hypothesis of `C01_erode_eq_spec`; the early exit of `erodeModel` fires (values −128). -/
 example :
     let A : Img Int := { shape := [2, 3], data := #[-128, 5, 127, -3, 0, 7] }
     let sup := support [2, 2] #[0, 3, -128, 1] false
     (∀ d ∈ A.shape, 0 < d) ∧ (sup.length = 4) ∧
-      (allPos A.shape).map (erodeAt (dtI 8) A sup) = [-128, -128, 5, -128, -128, 5] := by
-  decide
+      (allPos A.shape).map (erodeAt (dtI 8) A sup) = [-128, -128, 5, -128, -128, 5] ∧
+      (erodeModel (dtI 8) A sup).toList = [-128, -128, 5, -128, -128, 5] := by
+  decide +kernel
 
 /-! non-vacuity of T3/T3b: a 3×4 int8 image, an even-sized non-flat irregular element with an absent entry.
     The two box-interior pixels agree with the gather definition; border pixels (where the statement
